@@ -13,9 +13,9 @@ EXPLANATION = (
     "on-text to be the off-text with straight quotes replaced in place by one of the configured quote strings or an apostrophe."
 )
 BOUNDS = {
-    "quick": "text = 3 free characters over the typographic alphabet (\" ' a 1 space . - + ( ) c \\ * ` &) plus 12 scaffolds (code span, link with title, autolink, "
+    "quick": "text = 2 free characters (followed by a quote) over the typographic alphabet (\" ' a 1 space . - + ( ) c \\ * ` &) plus 12 scaffolds (code span, link with title, autolink, "
              "raw html, escapes, entities, nested emphasis) with 1-2 free characters; quotes = 4 symbolic characters; list-of-strings form with lengths 0-2",
-    "thorough": "4 free characters; scaffolds with 2 free characters; both presets",
+    "thorough": "3 free characters; scaffolds with 2 free characters; both presets",
 }
 OUTSIDE = "quote strings longer than 2; text longer than 4 free characters"
 ASSUMPTIONS = ["CR/NUL-free sources", "comparison before text_join reads the token list after running the core chain up to (excluding) text_join"]
@@ -156,16 +156,16 @@ SCAFFOLDS = [
 
 def jobs(tier, seed):
     jobs = []
-    k = 3 if tier == "quick" else 4
+    k = 2 if tier == "quick" else 3
     tspec = {n: {"alphabet": TYPO} for n in "abcdefgh"}
     anyspec = {n: {"exclude": "\r\0"} for n in "abcdefgh"}
     for mode in ("smartquotes", "replacements", "both"):
         for first in TYPO:
             sp = {kk: dict(v) for kk, v in tspec.items()}
             sp["a"] = {"alphabet": first}
-            if tier == "quick" and mode == "both" and first not in "\"'-.(":
+            if tier == "quick" and (mode == "both" or (mode == "replacements" and first not in ".-+(c ")):
                 continue
-            jobs.append({"harness": "typo", "params": {"mode": mode, "scaffold": free_doc(k, "\n"), "spec": sp, "quotes": "chars" if mode == "smartquotes" else None,
+            jobs.append({"harness": "typo", "params": {"mode": mode, "scaffold": free_doc(k, "\n") if tier == "thorough" else free_doc(k, "\"c\n"), "spec": sp, "quotes": "chars" if mode == "smartquotes" else None,
                                                         "name": f"{mode}-{first!r}"}, "weight": 8, "cpu_cap": 2400, "wall_cap": 3600})
         for sc in SCAFFOLDS:
             sc2 = sc if tier == "thorough" else [("x" if p == H("b") else p) for p in sc]
